@@ -278,6 +278,23 @@ fn mutate(p: &mut Party, foreign_dids: &[String], round: usize) {
             .metadata
             .properties_mut()
             .insert(format!("meta{i}"), Value::from(ctx::choose(1000) as u64));
+          // values of every JSON shape, `null`, empty containers and empty strings included
+          if ctx::choose(3) == 0 {
+            let v = match ctx::choose(6) {
+              0 => Value::Null,
+              1 => serde_json::json!({}),
+              2 => serde_json::json!([]),
+              3 => Value::from(""),
+              4 => Value::from(false),
+              _ => serde_json::json!({"inner": null, "list": [null, 0, ""]}),
+            };
+            if ctx::choose(2) == 0 {
+              doc.metadata.properties_mut().insert(format!("shape{i}"), v);
+            } else {
+              doc.properties_mut_unchecked().insert(format!("shape{round}x{i}"), v);
+            }
+            ctx::stat("probe.property_of_unusual_json_shape");
+          }
           // the remaining metadata fields must survive packing as well
           match ctx::choose(6) {
             4 => doc.metadata.created = None,
